@@ -485,6 +485,10 @@ __result = __json.dumps({call_node.as_string()})
         stdout, stderr = process.communicate(timeout=1)
 
     except subprocess.TimeoutExpired:
+        # do not leave the child running (wait() reaps it without waiting for its pipes,
+        # which a grandchild may keep open)
+        process.kill()
+        process.wait()
         raise CompilerError(
             f"Timeout during evaluating constexpr function call {call_node.as_string()}",
             call_node,
